@@ -3,7 +3,7 @@
 From DV Require Import Base.Prelude Model.BTreeM Proofs.BTreeBase Proofs.BTreeWf Proofs.BTreeInsert
   Proofs.BTreeLookup Proofs.BTreeDelete Proofs.BTreeTop
   Model.BTreeStoreM Proofs.BTreeStore Proofs.BTreeIsolation Proofs.BTreeCursor Proofs.BTreeHistory
-  Proofs.BTreeRefine Proofs.BTreeRefine5 Proofs.BTreeRefine6.
+  Proofs.BTreeRefine Proofs.BTreeRefine5 Proofs.BTreeRefine6 Proofs.BTreeRefine7.
 
 (* _Node.search_in_node (shortcut + binary search) on a key-sorted node = linear search *)
 Theorem search_spec : forall k es, ksorted es -> search k es = Ok (lsearch k es).
@@ -235,6 +235,18 @@ Theorem store_run_reference : forall xs,
 Proof. exact store_run_reference_proof. Qed.
 Print Assumptions store_run_reference.
 
+(* `_visit_preorder_by_node` on the store (`sdump`: the walk whose output the harness compares
+   with the real node structure, serial numbers and creator tags): in every reachable world and for
+   every tree, the walk from the root reaches pairwise distinct nodes (the structure is a tree: no
+   node is shared inside one tree) and sees, node by node, the preorder of the value-level tree. *)
+Theorem preorder_walk : forall xs k sb b,
+  let sw := execs (mkSW [] []) xs in
+  nth_error (sw_trees sw) k = Some sb -> nth_error (vexecs [] xs) k = Some b ->
+  let d := sdump (S (length (sw_store sw))) (sw_store sw) (sb_root sb) in
+  NoDup (map dump_id d) /\ map dump_node d = preorder (b_root b).
+Proof. exact preorder_walk_proof. Qed.
+Print Assumptions preorder_walk.
+
 Theorem cow_invariant_reachable : forall xs, WI (execs (mkSW [] []) xs).
 Proof. exact WI_reachable. Qed.
 Print Assumptions cow_invariant_reachable.
@@ -259,6 +271,15 @@ Example cow_isolated_inhabited :
   abs 3 (sw_store w') 0 = Some (Node true [(1, 1); (2, 2)] []) /\
   abs 3 (sw_store w') 1 = Some (Node true [(1, 1); (2, 2); (3, 3)] []).
 Proof. vm_compute. repeat split. Qed.
+
+(* non-vacuity of the refinement statements: a history with a clone that is mutated; the
+   value-level side of `store_refines` / `cow_isolated` / `preorder_walk` holds the expected trees *)
+Example store_refines_inhabited :
+  let xs := [SNew 3 0; SIns 0 1 1 None true; SIns 0 2 2 None true; SFreeze 0; SClone 0 false;
+             SDel 1 1 None 0; SSetDefault 1 7 7; SPopFirst 1] in
+  map (fun b => (elements (b_root b), b_immut b)) (vexecs [] xs) = [([(1, 1); (2, 2)], true); ([(7, 7)], false)] /\
+  length (sw_trees (execs (mkSW [] []) xs)) = 2%nat.
+Proof. vm_compute. split; reflexivity. Qed.
 
 (* non-vacuity of the history theorems: a concrete history through model and reference *)
 Example history_inhabited :
